@@ -515,7 +515,14 @@ func (x *World) observe() map[string]interface{} {
 			defer func() { recover() }()
 			return w.Alive(ecs.Entity{})
 		}(),
-		"used":   w.Stats().Entities.Used,
+		"used": func() (u int) {
+			defer func() {
+				if r := recover(); r != nil {
+					u = -1
+				}
+			}()
+			return w.Stats().Entities.Used
+		}(),
 		"locked": w.IsLocked(),
 		"ents":   ents,
 		"res":    res,
